@@ -500,7 +500,9 @@ def run(ctx: C.Ctx):
             m25 = ctx.model([[25, l, [[c[0], c[1], c[2]] for c in rt]] for (l, mt, rt, exc) in trace_retry])
             for (l, mt, rt, exc), mo in zip(trace_retry, m25):
                 if exc and not exc.startswith("emit:"):
-                    ctx.disagree("call tree of _parse_simple_lines (scope, depth, snippet) of a rejected script", l, mt, rt)
+                    # rejected half-way: a prefix of the own trace, possibly with re-specialisation segments before the rejection
+                    if mo[0] != 0 or not mo[2]:
+                        ctx.disagree("call tree of _parse_simple_lines (scope, depth, snippet) of a rejected script", l, mt, rt)
                 elif mo[0] != 0 or not mo[1]:
                     ctx.disagree("call tree of _parse_simple_lines (scope, depth, snippet): not the script's own calls with the re-specialisation "
                                  "calls of its defs (the kept body lines, parsed again) inserted", l, mt, rt)
